@@ -46,7 +46,8 @@ Deps(c) == IF c \notin DOMAIN WB THEN {c}
                 {c} \cup (CASE f.op = "const" -> {}
                             [] f.op = "add" -> Deps(f.a) \cup Deps(f.b)
                             [] f.op \in {"addk", "mulk"} -> Deps(f.a)
-                            [] f.op = "kdiv" -> Deps(f.b))
+                            [] f.op = "kdiv" -> Deps(f.b)
+                            [] f.op = "wcol" -> {x \in AllCoords : Pos[x][1] = f.s /\ Pos[x][2] = f.col})
 UntouchedKeepMeaning == \A c \in AllCoords : (Deps(c) \cap DOMAIN ov = {}) => Ev(c, ov) = Ev(c, EmptyOv)
 \* ---- C08 ----
 QueriesArePure == [][IsQuery => UNCHANGED ov]_vars
